@@ -121,6 +121,8 @@ class Harness:
         self.sandbox = self.report["sandbox"]["sandbox"]
         self.sandbox.allowed_time = 5
         self.threaded = bool(file.get("threaded", False))
+        if file.get("blocked", "none") != "none":
+            C.block_module(file["blocked"], report=self.report)
         style = file.get("tracer", "none")
         if style != "none":
             self.sandbox.tracer_style = style
